@@ -21,6 +21,7 @@ func init() {
 		Explain: "(a) panic-site inventory over the product packages, each site discharged by a local proof or a one-line table entry: non-comma-ok type assertions (dominating comma-ok, or a filter summary of the producing function); " +
 			"slice/string index and slice expressions (loop induction variable over the same or an equal-length slice, constant index under a length guard, producer summaries, full slices); dereferences of the nilable-by-API pointers " +
 			"(VerificationOutcome.EnvelopeContent, the verifier's two policy documents) and calls through nilable interface fields (plugin manager, revocation fields) under nil guards with correlated-check tracking; " +
+			"pointers that come out of decoded external data (an element of a map or slice of pointers to JSON structs such as the plugin's verdicts, a pointer-typed field of a JSON struct such as a manifest's subject) are dereferenced, here or in a function they are handed to, only behind a nil test of that pointer (a comma-ok presence test does not count); " +
 			"regexp.MustCompile only on constants that parse; map updates only on maps known non-nil; explicit panics; " +
 			"(b) outcome/error consistency of the two verifier methods: once the outcome exists every exit returns it, a nil error is returned only on paths no store to outcome.Error reaches, a non-nil error is the value just stored or a load of outcome.Error; " +
 			"(c) every content.FetchAll is cut by a positive constant size cap on the very descriptor fetched; (d) no decoder error (json.Unmarshal, Decoder.Decode, x509 parsers) is dropped.",
